@@ -88,19 +88,19 @@ pub struct Opts {
     pub replay_flavour: Option<String>,
 }
 
-struct Inst<T: Sc> {
-    line: Line,
-    idx: usize,
-    n: usize,
-    m: usize,
-    p: usize,
-    s: usize,
-    table: Arc<Table<T>>,
-    y: DMatrix<T>,
-    w: Option<Vec<T>>,
-    xs: Vec<T>,
-    healthy: Vec<bool>,
-    poly: bool,
+pub struct Inst<T: Sc> {
+    pub line: Line,
+    pub idx: usize,
+    pub n: usize,
+    pub m: usize,
+    pub p: usize,
+    pub s: usize,
+    pub table: Arc<Table<T>>,
+    pub y: DMatrix<T>,
+    pub w: Option<Vec<T>>,
+    pub xs: Vec<T>,
+    pub healthy: Vec<bool>,
+    pub poly: bool,
 }
 
 fn svd_healthy<T: Sc>(phi_w: &DMatrix<T>) -> bool {
@@ -135,7 +135,7 @@ fn svd_healthy<T: Sc>(phi_w: &DMatrix<T>) -> bool {
 }
 
 impl<T: Sc> Inst<T> {
-    fn new(line: &Line, idx: usize, rep: &mut Report) -> Self {
+    pub fn new(line: &Line, idx: usize, rep: &mut Report) -> Self {
         let n = line.x.len();
         let m = line.fam.m;
         let p = line.fam.p;
@@ -203,7 +203,7 @@ impl<T: Sc> Inst<T> {
         }
     }
 
-    fn eps_value(&self, ev: EpsVar) -> Option<T> {
+    pub fn eps_value(&self, ev: EpsVar) -> Option<T> {
         match ev {
             EpsVar::Default => None,
             EpsVar::User => Some(T::eps_user()),
@@ -249,15 +249,22 @@ fn tag(inst_idx: usize, fam: &FamJ, t: &str, kind: Kind, mrhs: bool, par: bool, 
 
 /// compare a reported state with the exact expectation of point `pt`
 #[allow(clippy::too_many_arguments)]
-fn check_point<T: Sc>(
+pub fn check_point_as<T: Sc>(
     inst: &Inst<T>,
     qi: usize,
     prob: &dyn Prob<T>,
     ev: EpsVar,
     flavour: &str,
     want_jac: bool,
+    over: Option<&'static str>,
     rep: &mut Report,
 ) {
+    // attribution: by default each observable belongs to its own property; a stage that tests
+    // something else (history independence, parallel flavour) can claim all of them
+    let c01 = over.unwrap_or("C01");
+    let c02 = over.unwrap_or("C02");
+    let c03 = over.unwrap_or("C03");
+    let c10 = over.unwrap_or("C10");
     let pt = &inst.line.pts[qi];
     let tol = T::tol();
     let m = inst.m as i64;
@@ -271,7 +278,7 @@ fn check_point<T: Sc>(
     let params = prob.params();
     let pa: Vec<f64> = params.iter().map(|v| v.to64()).collect();
     let pexp: Vec<f64> = pt.a.iter().map(|&v| v as f64).collect();
-    rep.check("C02", pa == pexp, 0.0, || det("params", 0.0));
+    rep.check(c02, pa == pexp, 0.0, || det("params", 0.0));
 
     // C02: weighted data = W*Y exactly as supplied
     let yw = prob.weighted_data();
@@ -285,25 +292,26 @@ fn check_point<T: Sc>(
             }
         }
     }
-    rep.check("C02", ok, 0.0, || det("weighted_data", 0.0));
+    rep.check(c02, ok, 0.0, || det("weighted_data", 0.0));
 
     let coeffs = prob.coeffs();
     let resid = prob.residuals();
     // model evaluates on the lattice => everything present
-    rep.check("C01", coeffs.is_some(), 0.0, || det("coefficients absent although the model evaluates", 0.0));
-    rep.check("C02", resid.is_some(), 0.0, || det("residuals absent although the model evaluates", 0.0));
+    rep.check(c01, coeffs.is_some(), 0.0, || det("coefficients absent although the model evaluates", 0.0));
+    rep.check(c02, resid.is_some(), 0.0, || det("residuals absent although the model evaluates", 0.0));
     let (coeffs, resid) = match (coeffs, resid) {
         (Some(c), Some(r)) => (c, r),
         _ => return,
     };
+    crate::report::hash_obs(rep, &Some(coeffs.as_slice().to_vec()), &Some(resid.clone()), &None);
     // C01: finite, right shape
     let shape_ok = coeffs.nrows() == inst.m && coeffs.ncols() == inst.s;
-    rep.check("C01", shape_ok, 0.0, || det("coefficient shape", 0.0));
+    rep.check(c01, shape_ok, 0.0, || det("coefficient shape", 0.0));
     if !shape_ok {
         return;
     }
     let finite = coeffs.iter().all(|v| v.to64().is_finite()) && resid.iter().all(|v| v.to64().is_finite());
-    rep.check("C01", finite, 0.0, || det("non-finite coefficients or residuals", f64::INFINITY));
+    rep.check(c01, finite, 0.0, || det("non-finite coefficients or residuals", f64::INFINITY));
 
     // C02 (relative form, independent of the decomposition): residual = Yw - Phi_w * C_reported
     {
@@ -330,7 +338,7 @@ fn check_point<T: Sc>(
             len_ok = false;
         }
         let good = len_ok && (worst <= tol || !finite);
-        rep.check("C02", good, worst, || det("residual != Yw - Phi_w*C (column-major)", worst));
+        rep.check(c02, good, worst, || det("residual != Yw - Phi_w*C (column-major)", worst));
     }
 
     // C01 absolute: coefficients are the exact optimum / minimum norm solution
@@ -342,11 +350,11 @@ fn check_point<T: Sc>(
             }
         }
         if worst <= tol {
-            rep.ok("C01", worst);
+            rep.ok(c01, worst);
         } else if !healthy {
-            rep.known("C01", json!({"key": "svd_unhealthy", "flavour": flavour, "a": pt.a, "dev": worst}));
+            rep.known(c01, json!({"key": "svd_unhealthy", "flavour": flavour, "a": pt.a, "dev": worst}));
         } else {
-            rep.violation("C01", det("coefficients differ from the exact least squares optimum", worst));
+            rep.violation(c01, det("coefficients differ from the exact least squares optimum", worst));
         }
         // C02 absolute: residual vector
         let mut worst = 0.0f64;
@@ -358,11 +366,11 @@ fn check_point<T: Sc>(
             worst = f64::INFINITY;
         }
         if worst <= tol {
-            rep.ok("C02", worst);
+            rep.ok(c02, worst);
         } else if !healthy {
-            rep.known("C02", json!({"key": "svd_unhealthy", "flavour": flavour, "a": pt.a, "dev": worst}));
+            rep.known(c02, json!({"key": "svd_unhealthy", "flavour": flavour, "a": pt.a, "dev": worst}));
         } else {
-            rep.violation("C02", det("residual vector differs from W(Y - Phi C) stacked column-major", worst));
+            rep.violation(c02, det("residual vector differs from W(Y - Phi C) stacked column-major", worst));
         }
     } else {
         rep.count("c01_finiteness_only", 1);
@@ -371,10 +379,11 @@ fn check_point<T: Sc>(
     // C03: Kaufman Jacobian
     if want_jac {
         let jac = prob.jacobian();
-        rep.check("C03", jac.is_some(), 0.0, || det("jacobian absent although all derivatives evaluate", 0.0));
+        rep.check(c03, jac.is_some(), 0.0, || det("jacobian absent although all derivatives evaluate", 0.0));
         if let Some(jm) = jac {
+            crate::report::hash_obs::<T>(rep, &None, &None, &Some(jm.as_slice().to_vec()));
             let shape_ok = jm.nrows() == inst.n * inst.s && jm.ncols() == inst.p;
-            rep.check("C03", shape_ok, 0.0, || det("jacobian shape", 0.0));
+            rep.check(c03, shape_ok, 0.0, || det("jacobian shape", 0.0));
             if shape_ok && fullrank && pt.lvl >= 2 {
                 let d2 = pt.d * pt.d;
                 let mut worst = 0.0f64;
@@ -384,28 +393,33 @@ fn check_point<T: Sc>(
                     }
                 }
                 if worst <= tol {
-                    rep.ok("C03", worst);
+                    rep.ok(c03, worst);
                 } else if !healthy {
-                    rep.known("C03", json!({"key": "svd_unhealthy", "flavour": flavour, "a": pt.a, "dev": worst}));
+                    rep.known(c03, json!({"key": "svd_unhealthy", "flavour": flavour, "a": pt.a, "dev": worst}));
                 } else {
-                    rep.violation("C03", det("jacobian differs from -(I-P) W D_k C", worst));
+                    rep.violation(c03, det("jacobian differs from -(I-P) W D_k C", worst));
                 }
             }
             // C10: repeated queries identical
             if let Some(j2) = prob.jacobian() {
-                rep.check("C10", bits_eq(jm.as_slice(), j2.as_slice()), 0.0, || det("repeated jacobian() differs", 0.0));
+                rep.check(c10, bits_eq(jm.as_slice(), j2.as_slice()), 0.0, || det("repeated jacobian() differs", 0.0));
             }
         }
     }
     // C10: repeated queries identical
     if let (Some(c2), Some(r2)) = (prob.coeffs(), prob.residuals()) {
         rep.check(
-            "C10",
+            c10,
             bits_eq(coeffs.as_slice(), c2.as_slice()) && bits_eq(&resid, &r2),
             0.0,
             || det("repeated query differs", 0.0),
         );
     }
+}
+
+#[allow(clippy::too_many_arguments)]
+fn check_point<T: Sc>(inst: &Inst<T>, qi: usize, prob: &dyn Prob<T>, ev: EpsVar, flavour: &str, want_jac: bool, rep: &mut Report) {
+    check_point_as(inst, qi, prob, ev, flavour, want_jac, None, rep)
 }
 
 fn max_rel_diff<T: Sc>(a: &[T], b: &[T]) -> f64 {
@@ -420,14 +434,14 @@ fn max_rel_diff<T: Sc>(a: &[T], b: &[T]) -> f64 {
 }
 
 /// observable state of a problem as flat vectors
-struct Obs<T: Sc> {
-    c: Option<Vec<T>>,
-    r: Option<Vec<T>>,
-    j: Option<Vec<T>>,
-    cm: Option<DMatrix<T>>,
-    jm: Option<DMatrix<T>>,
+pub struct Obs<T: Sc> {
+    pub c: Option<Vec<T>>,
+    pub r: Option<Vec<T>>,
+    pub j: Option<Vec<T>>,
+    pub cm: Option<DMatrix<T>>,
+    pub jm: Option<DMatrix<T>>,
 }
-fn observe<T: Sc>(p: &dyn Prob<T>) -> Obs<T> {
+pub fn observe<T: Sc>(p: &dyn Prob<T>) -> Obs<T> {
     let cm = p.coeffs();
     let jm = p.jacobian();
     Obs {
@@ -438,7 +452,7 @@ fn observe<T: Sc>(p: &dyn Prob<T>) -> Obs<T> {
         jm,
     }
 }
-fn obs_bits_eq<T: Sc>(a: &Obs<T>, b: &Obs<T>) -> bool {
+pub fn obs_bits_eq<T: Sc>(a: &Obs<T>, b: &Obs<T>) -> bool {
     fn o<T: Sc>(x: &Option<Vec<T>>, y: &Option<Vec<T>>) -> bool {
         match (x, y) {
             (None, None) => true,
